@@ -45,6 +45,9 @@ func c06Paths() []string {
 	}
 	rec("", 1)
 	out = append(out, "/a/b/c/a/b", "/a:w", "/a/b:w", "/a/x:", "/a/b/c/d:v")
+	// a raw ':' in a segment other than the last is part of that segment (only the last
+	// segment can carry the verb)
+	out = append(out, "/a:x/b", "/a/c:d/b", "/c:d", "/c:d/b", "/a/c:d", "/a/c:d:v", "/a/b/c:d", "/c/x:y/z/w", "/a/c:d/b:v", "/a:v/b:v", "/x:y/b", "/a/x:y", "/a/b:v/c", "/a/x:v/b")
 	return out
 }
 
